@@ -1,4 +1,4 @@
-import LinOp.C02.Proofs
+import LinOp.C02.Proofs4
 import LinOp.Generated.C02Table
 /-!
 C02 — composition and structure-preserving rewrites never change the matrix.  Property theorems only.
@@ -47,6 +47,79 @@ theorem matmulOp_value (a b r : Op α) (h : matmulOp a b = .ok r) (i j : Nat) (h
 /-- The Mul constructor's operand swap (larger root first) is invisible in the value. -/
 theorem mkMul_value (a b : Op α) (i j : Nat) : (mkMul a b).denote i j = a.denote i j * b.denote i j :=
   mkMul_refines a b i j
+
+/-- **`a - b` denotes `⟦a⟧ - ⟦b⟧`** (`self + other.mul(-1)`; includes `X - Zero` since fix 63d7878), for every
+pair of classes; `S` supplies the positivity test and square root used for root folding. -/
+theorem sub_value (S : ScalarOps α) (hS : SqrtLaw S) (a b r : Op α) (h : sub S a b = .ok r) (i j : Nat) :
+    r.denote i j = a.denote i j - b.denote i j := by
+  rw [sub_refines S hS a b r h]; ring
+
+/-- **Multiplication by a constant** (python number, 0-d tensor …) denotes the scaled matrix whatever the class
+does with it: Diag/ConstantDiag/Identity/KroneckerProductDiag rescale their diagonal, Triangular and the Sum family
+recurse, **Root/LowRankRoot/Chol fold `sqrt c` into the root when `c > 0`** (needs `sqrt c · sqrt c = c`) and
+wrap in ConstantMul otherwise, Mul scales its left root, LowRankRootAddedDiag degrades to AddedDiag for
+non-positive constants, Zero stays Zero, everything else becomes a ConstantMulLinearOperator. -/
+theorem mulScalar_value (S : ScalarOps α) (hS : SqrtLaw S) (a : Op α) (c : α) (i j : Nat) :
+    (mulScalar S a c).denote i j = a.denote i j * c := mulScalar_refines S hS a c i j
+
+theorem mulConst_value (S : ScalarOps α) (hS : SqrtLaw S) (a : Op α) (c : α) (i j : Nat) :
+    (mulConst S a c).denote i j = a.denote i j * c := mulConst_refines S hS a c i j
+
+/-- `op / c` = `op * (1/c)`. -/
+theorem divScalar_value (S : ScalarOps α) (hS : SqrtLaw S) (a : Op α) (cinv : α) (i j : Nat) :
+    (divScalar S a cinv).denote i j = a.denote i j * cinv := divScalar_refines S hS a cinv i j
+
+/-- scaling never changes the shape. -/
+theorem mulConst_shape (S : ScalarOps α) (a : Op α) (c : α) :
+    (mulConst S a c).rows = a.rows ∧ (mulConst S a c).cols = a.cols := shape_mulConst S a c
+
+/-- **Transpose** (`_transpose_nonbatch` of every class) denotes the transposed matrix and swaps the shape. -/
+theorem transpose_value (a : Op α) (i j : Nat) : (transposeOp a).denote i j = a.denote j i := transpose_refines a i j
+
+theorem transpose_shape (a : Op α) : (transposeOp a).rows = a.cols ∧ (transposeOp a).cols = a.rows :=
+  shape_transpose a
+
+/-- **Elementwise product of two operators** (`mul` → `_mul_matrix`): Zero on either side, ConstantDiag∘ConstantDiag,
+Diag-like ∘ anything (only the diagonal of the other operand is read — this now includes Identity), the Dense
+shortcut, and the MulLinearOperator built from root decompositions (`rootDec` is the numerical primitive, assumed to
+return an operator with the same value) all denote the Hadamard product. -/
+theorem mulMatrix_value (rootDec : Op α → Op α) (hroot : ∀ x i j, (rootDec x).denote i j = x.denote i j)
+    (a b r : Op α) (h : mulMatrix rootDec a b = .ok r) (i j : Nat) :
+    r.denote i j = a.denote i j * b.denote i j := mulMatrix_refines rootDec hroot a b r h i j
+
+/-- `Identity * b` is the diagonal part of `b` (full theorem since fix 7b74d3a), never an error. -/
+theorem mulMatrix_identity (rootDec : Op α → Op α) (n : Nat) (b : Op α) (hz : b.isZero = false)
+    (hc : b.isConstDiag = false) :
+    mulMatrix rootDec (.identity n) b = .ok (.diag n fun i => 1 * b.denote i i) := by
+  have h1 : ((Op.identity n : Op α).isConstDiag && b.isConstDiag) = false := by simp [hc]
+  simp [mulMatrix, hz, h1, isDiag, rows, diagOf]
+
+/-- **Programs**: for every expression program `p` (any depth) over operators of any class, built from +, −, scalar * and /,
+elementwise *, @, add_diagonal, add_jitter and transpose: if the library's evaluation (every step through the
+dispatch model) yields `r`, then `r` has the shape of the dense expression and denotes the dense value on it.
+Which result classes were chosen along the way is invisible. -/
+theorem eval_refines (E : Env α) (hS : SqrtLaw E.S)
+    (hroot : ∀ x i j, (E.rootDec x).denote i j = x.denote i j) (p : Prog α) (r : Op α)
+    (h : Impl.eval E p = .ok r) :
+    r.rows = p.rows ∧ r.cols = p.cols ∧ ∀ i j, i < p.rows → j < p.cols → r.denote i j = Spec.eval p i j :=
+  eval_refines_aux E hS hroot p r h
+
+/-- Corollary (**result class irrelevant**): two evaluations of the same program under different numerical
+primitives / scalar implementations (hence possibly different class trees) agree entrywise. -/
+theorem resultClass_irrelevant (E E' : Env α) (hS : SqrtLaw E.S) (hS' : SqrtLaw E'.S)
+    (hroot : ∀ x i j, (E.rootDec x).denote i j = x.denote i j)
+    (hroot' : ∀ x i j, (E'.rootDec x).denote i j = x.denote i j)
+    (p : Prog α) (r r' : Op α) (h : Impl.eval E p = .ok r) (h' : Impl.eval E' p = .ok r')
+    (i j : Nat) (hi : i < p.rows) (hj : j < p.cols) : r.denote i j = r'.denote i j := by
+  rw [(eval_refines E hS hroot p r h).2.2 i j hi hj, (eval_refines E' hS' hroot' p r' h').2.2 i j hi hj]
+
+/-- The model has no other failure mode than the two explicit errors: a dispatch step either returns an operator
+(with the right value, by the theorems above) or says `notSupported` / `shape`. -/
+theorem error_explicit (e : Err) : e = .notSupported ∨ e = .shape := by cases e <;> simp
+
+/-- the hypotheses of `eval_refines` are satisfiable (exact square roots of 0/1 over ℤ, identity root stand-in) -/
+example : ∃ E : Env Int, SqrtLaw E.S ∧ ∀ x i j, (E.rootDec x).denote i j = x.denote i j :=
+  ⟨⟨⟨fun c => c == 1, fun c => c⟩, id⟩, by intro c hc; simp at hc; subst hc; rfl, fun _ _ _ => rfl⟩
 
 /-- **The previous `IdentityLinearOperator._mul_matrix` (`return other`, before fix 7b74d3a) was wrong**: a statement
 about the OLD formula only — `A`'s off-diagonal entries differ from the elementwise product `I ∘ A`. -/
